@@ -1,5 +1,6 @@
 import FranzVerif.Proof.C26
 import FranzVerif.Proof.C26Ex
+import FranzVerif.Proof.C26P
 /-! C26 — sticky balancing is optimal and keeps balanced assignments.
 
 **Spec** (`Model.C26.Optimal ms plan`, from the property text, no algorithm in it): write `a ⟶ b` when `b` holds
@@ -85,6 +86,13 @@ theorem accepted_trace_valid (c : Ctx) (es : List Ev) (s : St) (h : run c {} 0 e
     rw [e1] at e2
     exact Option.some.inj e2
 
+/-- the same in the vocabulary of C25: the plan of such a state satisfies C25's executable Spec `validPlan`
+(every partition of every subscribed topic exactly once, to a subscriber, nothing else). -/
+theorem accepted_trace_validPlan (c : Ctx) (es : List Ev) (s : St) (h : run c {} 0 es = .ok s) (hd : 2 ≤ s.phase) :
+    validPlan (subsOf c.members) (cnt c.topics) (planOf c s.own) = true :=
+  let hi := (run_good c {} s 0 es h (good_init c)).inv hd
+  validPlan_planOf c s.own hi.valid hi.complete
+
 /-- **Stability**: if the prior plan the engine parsed from the members' metadata is already valid and
 optimally balanced for the current subscriptions, every accepted continuation — of any length — leaves every
 partition where it is: no drop, restick, assignment or steal is accepted from such a state. -/
@@ -103,6 +111,44 @@ theorem optimal_start_unchanged (c : Ctx) (owns stl : List (String × TP)) (es :
       have := run_stable c _ s 1 es h (by simp) hv hc ((allStuck_iff_optimal c _).2 ho)
       rw [this]
     · cases hs1
+
+/-- **Stability as the property states it, on the members' own statements**: when the current assignments the
+members list (`priorPlan`: every owned entry of every member, whatever their generations) are valid — every listed
+partition exists and its holder subscribes to the topic, no partition is listed twice, every partition of a topic
+somebody subscribes to is listed — and optimally balanced, every accepted trace leaves every partition where it
+is: the final plan is the listed assignment (as a multiset of member/topic/partition triples). -/
+theorem optimal_priors_unchanged (c : Ctx) (owns stl : List (String × TP)) (es : List Ev) (s : St)
+    (h : run c {} 0 (.init owns stl :: es) = .ok s)
+    (hin : ∀ x ∈ priorPlan c.members, c.isPart (x.2.1, x.2.2) = true ∧ c.sub x.1 x.2.1 = true)
+    (hu : ((priorPlan c.members).map fun x => ((x.2.1, x.2.2) : TP)).Nodup)
+    (hc : ∀ p, c.isPart p = true → c.wanted p.1 = true → ∃ m, (m, p.1, p.2) ∈ priorPlan c.members)
+    (ho : Optimal c.members (priorPlan c.members)) :
+    (planOf c s.own).Perm (priorPlan c.members) := by
+  have hin1 : ∀ x ∈ priorPlan c.members, c.isPart (x.2.1, x.2.2) = true := fun x hx => (hin x hx).1
+  have hperm := planOf_initOwn_perm c hin1 hu
+  have := optimal_start_unchanged c owns stl es s h
+    (fun p b hpb => hin _ ((initOwn_of_valid_priors c hin1 hu p b).1 hpb))
+    (fun p hp hw => by
+      obtain ⟨m, hm⟩ := hc p hp hw
+      rw [(initOwn_of_valid_priors c hin1 hu p m).2 hm]; rfl)
+    (optimal_of_perm c.members _ _ hperm.symm ho)
+  rw [this]
+  exact hperm
+
+/-- the hypotheses about the priors are satisfiable by a non-trivial group: `a` (subscribed to t0 only) lists all
+three partitions of t0, `b` (t1 only, an older generation) lists the one partition of t1 — valid, and optimal although
+the loads differ by two. (The remaining hypothesis, an accepted trace starting with `init`, is what every real
+run of the harness supplies; `Std.HashMap.fold` over a non-empty map does not evaluate symbolically.) -/
+example :
+    let c : Ctx := { members := [{ id := "a", topics := ["t0"], gen := 3, owned := [("t0", [0, 1, 2])] },
+                                 { id := "b", topics := ["t1"], gen := 2, owned := [("t1", [0])] }],
+                     topics := [("t0", 3), ("t1", 1)] }
+    (∀ x ∈ priorPlan c.members, c.isPart (x.2.1, x.2.2) = true ∧ c.sub x.1 x.2.1 = true) ∧
+    ((priorPlan c.members).map fun x => ((x.2.1, x.2.2) : TP)).Nodup ∧
+    (∀ p ∈ c.parts, c.wanted p.1 = true → ∃ m ∈ c.ids, (m, p.1, p.2) ∈ priorPlan c.members) ∧
+    Optimal c.members (priorPlan c.members) := by
+  refine ⟨by decide, by decide, by decide, ?_⟩
+  exact optimal_of_certs _ _ [("a", ["a"]), ("b", ["b"])] (by decide)
 
 /-- The same from any state of the assignment or balancing phase (not only the parsed one). -/
 theorem optimal_state_unchanged (c : Ctx) (s s' : St) (i : Nat) (es : List Ev) (h : run c s i es = .ok s') (hph : 1 ≤ s.phase)
